@@ -357,6 +357,7 @@ func (s *P2Set) CheckWrites(o *P2Obs) [][2]string {
 //   truncrec v   cut recovery file v in the middle of its last packet
 //   foreignrec   add s.vol77+01.par2 holding packets of a different recovery set
 //   emptyrec v   make recovery file v empty
+//   duprec v     copy recovery file v to <base>.backup<v>.par2 (the same blocks stored twice)
 func (s *P2Set) ApplyDmg(fs *envfs.FS, d Dmg, seed int64) {
 	switch d.Op {
 	case "badrec":
@@ -399,6 +400,14 @@ func (s *P2Set) ApplyDmg(fs *envfs.FS, d Dmg, seed int64) {
 			return
 		}
 		fs.Put(s.RecFiles[d.F], nil)
+	case "duprec":
+		// a copy of recovery file v under another name beside the index (e.g. a backup): the same blocks twice
+		if d.F >= len(s.RecFiles) {
+			return
+		}
+		if b, ok := fs.Get(s.RecFiles[d.F]); ok {
+			fs.Put(strings.TrimSuffix(s.Index, ".par2")+fmt.Sprintf(".backup%d.par2", d.F), b)
+		}
 	case "foreignrec":
 		other := rpar2.NewSet(s.Cfg.Slice, []rpar2.FileSpec{{Name: "zz", Data: Garbage(seed, 31337, 2*s.Cfg.Slice+1)}})
 		pk := other.CorePackets("refwriter")
@@ -416,5 +425,14 @@ func RecMenu(nRec int) []Dmg {
 		m = append(m, Dmg{Op: "badrec", F: v}, Dmg{Op: "fliprec", F: v}, Dmg{Op: "truncrec", F: v}, Dmg{Op: "emptyrec", F: v})
 	}
 	m = append(m, Dmg{Op: "foreignrec"})
+	return m
+}
+
+// DupRecMenu lists "copy recovery file v under another name" for every v.
+func DupRecMenu(nRec int) []Dmg {
+	var m []Dmg
+	for v := 0; v < nRec; v++ {
+		m = append(m, Dmg{Op: "duprec", F: v})
+	}
 	return m
 }
